@@ -21,6 +21,7 @@ var c06Shapes = []string{
 	"a+b*c", "a*b+c", "a-b-c", "a-(b-c)", "a/b/c", "a*b/c", "a-b+c", "a+b-c", "(a+b)*c", "a*(b+c)", "a-b*c", "a%b*c", "a*b%c", "(a-b)-c", "a/b*c", "a/(b*c)",
 	"a+b*c-d", "a-b-c-d", "a*b+c*d", "(a+b)*(c-d)", "a-(b-(c-d))", "a+b+c+d", "a-b+c-d", "a/b+c%d", "a*(b+c)*d", "a-b*c+d", "((a))-((b+c))",
 	"a+0x10", "0xFF-a", "a*0x10+b", "$+a", "a-$", "a+$-b",
+	"(a*b)/c", "(a*b)%c", "(a+b)/c", "(a*b)/b",
 }
 
 type rp struct {
